@@ -13,6 +13,7 @@ from checks.nnlib import pyrepseq, nn, CUSTOM, custom_neighbours_self, custom_ne
 import pwseqdist  # the vendored stand-in (vendor/pwseqdist) unless the real package is installed
 
 PROPERTY = "C14"
+QUICK_SCALE = 3
 RULE = ("custom: amino-acid clonal families x a family of exactly symmetric custom distances with d(x,x)=0 (0.5*lev, 2*lev, 3*lev, "
         "lev+1.5*|len diff|, discrete metric, real- and integer-valued substitution-cost alignment) x k=1..3 x "
         "max_custom_distance in {inf, 0, values between realised custom distances, values between k and 2k} x engine in "
